@@ -21,38 +21,11 @@ type Report struct {
 	IsDuplicate   bool
 }
 
+// isEqual tells if two reports are one and the same report: the canonical order cannot tell them apart.
+// Using a single comparison for both folding and sorting means that the output does not depend
+// on the order in which workers deliver reports.
 func (r Report) isEqual(nr Report) bool {
-	if nr.Path.SymlinkTarget != r.Path.SymlinkTarget {
-		return false
-	}
-	if nr.Path.Name != r.Path.Name {
-		return false
-	}
-	if nr.Owner != r.Owner {
-		return false
-	}
-	if r.Problem.Lines.First != nr.Problem.Lines.First {
-		return false
-	}
-	if r.Problem.Lines.Last != nr.Rule.Lines.Last {
-		return false
-	}
-	if !nr.Rule.IsSame(r.Rule) {
-		return false
-	}
-	if nr.Problem.Reporter != r.Problem.Reporter {
-		return false
-	}
-	if nr.Problem.Summary != r.Problem.Summary {
-		return false
-	}
-	if !isSameDiagnostics(nr.Problem.Diagnostics, r.Problem.Diagnostics) {
-		return false
-	}
-	if nr.Problem.Severity != r.Problem.Severity {
-		return false
-	}
-	return true
+	return cmpReports(r, nr) == 0
 }
 
 func (r Report) isSameIssue(nr Report) bool {
@@ -144,26 +117,63 @@ func (s Summary) hasReport(r Report) bool {
 
 func (s *Summary) SortReports() {
 	for i := range s.reports {
-		slices.SortStableFunc(s.reports[i].Problem.Diagnostics, func(a, b diags.Diagnostic) int {
-			return cmp.Or(
-				cmp.Compare(b.FirstColumn, a.FirstColumn),
-				cmp.Compare(a.LastColumn, b.LastColumn),
-				cmp.Compare(a.Message, b.Message),
-			)
-		})
+		slices.SortStableFunc(s.reports[i].Problem.Diagnostics, cmpDiags)
 	}
 
-	slices.SortStableFunc(s.reports, func(a, b Report) int {
-		return cmp.Or(
-			cmp.Compare(a.Path.Name, b.Path.Name),
-			cmp.Compare(a.Problem.Lines.First, b.Problem.Lines.First),
-			cmp.Compare(a.Problem.Lines.Last, b.Problem.Lines.Last),
-			cmp.Compare(a.Problem.Severity, b.Problem.Severity),
-			cmp.Compare(a.Problem.Reporter, b.Problem.Reporter),
-			cmp.Compare(a.Problem.Summary, b.Problem.Summary),
-			cmpDiagnostics(a.Problem.Diagnostics, b.Problem.Diagnostics),
-		)
-	})
+	slices.SortStableFunc(s.reports, cmpReports)
+}
+
+// cmpReports is a total order: it looks at everything that makes two reports different,
+// reports that compare as equal are folded into one by Summary.Report().
+func cmpReports(a, b Report) int {
+	return cmp.Or(
+		cmp.Compare(a.Path.Name, b.Path.Name),
+		cmp.Compare(a.Problem.Lines.First, b.Problem.Lines.First),
+		cmp.Compare(a.Problem.Lines.Last, b.Problem.Lines.Last),
+		cmp.Compare(a.Problem.Severity, b.Problem.Severity),
+		cmp.Compare(a.Problem.Reporter, b.Problem.Reporter),
+		cmp.Compare(a.Problem.Summary, b.Problem.Summary),
+		cmpDiagnostics(a.Problem.Diagnostics, b.Problem.Diagnostics),
+		cmp.Compare(a.Problem.Details, b.Problem.Details),
+		cmp.Compare(a.Problem.Anchor, b.Problem.Anchor),
+		cmp.Compare(a.Owner, b.Owner),
+		cmp.Compare(a.Path.SymlinkTarget, b.Path.SymlinkTarget),
+		cmpRules(a.Rule, b.Rule),
+	)
+}
+
+// cmpRules orders rules by what Rule.IsSame() looks at, and by name: flow style
+// YAML can put more than one rule on a line.
+func cmpRules(a, b parser.Rule) int {
+	return cmp.Or(
+		cmp.Compare(a.Lines.First, b.Lines.First),
+		cmp.Compare(a.Lines.Last, b.Lines.Last),
+		cmp.Compare(a.Name(), b.Name()),
+		cmpBool(a.AlertingRule != nil, b.AlertingRule != nil),
+		cmpBool(a.RecordingRule != nil, b.RecordingRule != nil),
+		cmp.Compare(a.Error.Line, b.Error.Line),
+		cmp.Compare(a.Error.Details, b.Error.Details),
+		cmpBool(a.Error.Err != nil, b.Error.Err != nil),
+		cmp.Compare(errText(a.Error.Err), errText(b.Error.Err)),
+	)
+}
+
+func cmpBool(a, b bool) int {
+	switch {
+	case a == b:
+		return 0
+	case b:
+		return -1
+	default:
+		return 1
+	}
+}
+
+func errText(err error) string {
+	if err == nil {
+		return ""
+	}
+	return err.Error()
 }
 
 func (s *Summary) Dedup() {
@@ -238,40 +248,22 @@ func cmpDiags(a, b diags.Diagnostic) int {
 	)
 }
 
+// cmpDiagnostics compares two lists of diagnostics as sorted lists, whatever order they were emitted in.
 func cmpDiagnostics(sa, sb []diags.Diagnostic) int {
-	if len(sa) == 0 {
-		return -1
-	}
-	if len(sb) == 0 {
-		return 1
-	}
-
+	sa, sb = slices.Clone(sa), slices.Clone(sb)
 	slices.SortStableFunc(sa, cmpDiags)
 	slices.SortStableFunc(sb, cmpDiags)
 
-	return cmpDiags(sa[0], sb[0])
+	for i := range min(len(sa), len(sb)) {
+		if c := cmpDiags(sa[i], sb[i]); c != 0 {
+			return c
+		}
+	}
+	return cmp.Compare(len(sa), len(sb))
 }
 
 func isSameDiagnostics(sa, sb []diags.Diagnostic) bool {
-	if len(sa) != len(sb) {
-		return false
-	}
-
-	var ok bool
-	for _, a := range sa {
-		ok = false
-		for _, b := range sb {
-			if a.FirstColumn == b.FirstColumn && a.LastColumn == b.LastColumn && a.Message == b.Message {
-				ok = true
-				break
-			}
-		}
-		if !ok {
-			return false
-		}
-	}
-
-	return true
+	return cmpDiagnostics(sa, sb) == 0
 }
 
 func isSameDiagnosticsMessage(sa, sb []diags.Diagnostic) bool {
